@@ -50,3 +50,55 @@ func vfC15NonPow2(c int) {
 	vfReach("nonpow2")
 	vfAssert("nonpow2-pixel-x-roundtrip", back[0] == float64(px))
 }
+
+// ---- y axis (and both axes together) at catalogue coordinates: concrete runs ----
+// The y axis is transcendental, no solver decision is possible; these cases execute the real
+// ToWGS84/ToTile pair on a catalogue of integer coordinates in [-extent, 2*extent) - including the
+// buffer above the first and below the last tile row - for tiles on the first, a middle and the last
+// row at 10 zooms and 4 power-of-two extents, and demand the exact integers back.
+
+var vfPYZooms = []int{0, 1, 2, 3, 4, 8, 12, 16, 20, 22}
+var vfPYExtents = []int{256, 512, 4096, 8192}
+
+const vfPYCoords = 12
+
+func vfPYCase(c int) (tile maptile.Tile, e int, p orb.Point, row int) {
+	k := c % vfPYCoords
+	c /= vfPYCoords
+	row = c % 3
+	c /= 3
+	z := maptile.Zoom(vfPYZooms[c/len(vfPYExtents)])
+	e = vfPYExtents[c%len(vfPYExtents)]
+	n := uint32(1) << uint32(z)
+	ty := uint32(0)
+	switch row {
+	case 1:
+		ty = n / 2
+	case 2:
+		ty = n - 1
+	}
+	tile = maptile.Tile{X: n / 3, Y: ty, Z: z}
+	coords := []int{-e, -e/2 - 1, -64, -1, 0, 1, e/2 - 1, e / 2, e - 1, e, e + 64, 2*e - 1}
+	return tile, e, orb.Point{float64(coords[(k*5+3)%len(coords)]), float64(coords[k])}, row
+}
+
+func vfC15PixelY_N(tier int) int { return len(vfPYZooms) * len(vfPYExtents) * 3 * vfPYCoords }
+func vfC15PixelY_Label(c int) string {
+	tile, e, p, row := vfPYCase(c)
+	ll := newProjection(tile, uint32(e)).ToWGS84(p)
+	cap := ""
+	if ll[1] > 89.1897 || ll[1] < -89.1897 {
+		// |sin(lat)| > 0.9999: the band mercator.ToPlanar clamps
+		cap = " polar-cap(|lat|>89.1897)"
+	}
+	return "zoom=" + strconv.Itoa(int(tile.Z)) + " extent=" + strconv.Itoa(e) + " row=" + []string{"first", "middle", "last"}[row] +
+		" x=" + strconv.Itoa(int(p[0])) + " y=" + strconv.Itoa(int(p[1])) + cap
+}
+
+func vfC15PixelY(c int) {
+	tile, e, p, _ := vfPYCase(c)
+	proj := newProjection(tile, uint32(e))
+	vfReach("pixel-y")
+	back := proj.ToTile(proj.ToWGS84(p))
+	vfAssert("pixel-roundtrip-exact", back[0] == p[0] && back[1] == p[1])
+}
